@@ -64,6 +64,40 @@ theorem C37_history_then_nearest (bucketsize : Nat) (loc : Id) (hbs : bucketsize
   obtain ⟨l, hl, a, b, _, _⟩ := C37_nearest t id count hi
   exact ⟨t, l, h, hi, hl, a, b⟩
 
+/-- **Find**: hit ⇔ member.  On a table satisfying the invariant whose ids all have the length of the target (every Go
+`PeerId` has 20 bytes), `Find id` returns a peer exactly when a peer with that id is in the table, and then that peer. -/
+theorem C37_find (t : Table) (id : Id) (hinv : Inv t) (hlen : ∀ p ∈ t.peers, p.id.length = id.length) :
+    ∃ r, find t id = .ok r ∧ ∀ p, r = some p ↔ (p ∈ t.peers ∧ p.id = id) :=
+  find_spec t id hinv hlen
+
+/-- the same after every history of `Update`/`Remove` with ids of one length -/
+theorem C37_history_then_find (bucketsize : Nat) (loc : Id) (hbs : bucketsize > 0) (ops : List Op) (id : Id)
+    (ho : OpsIdLen id.length ops) :
+    ∃ t r, run (Table.new bucketsize loc) ops = .ok t ∧ find t id = .ok r ∧ ∀ p, r = some p ↔ (p ∈ t.peers ∧ p.id = id) := by
+  obtain ⟨t, h, hi, hl⟩ := run_idlen id.length ops (Table.new bucketsize loc) (inv_new bucketsize loc) hbs
+    (by intro q hq; simp [Table.new, Table.peers] at hq) ho
+  obtain ⟨r, hf, hr⟩ := find_spec t id hi hl
+  exact ⟨t, r, h, hf, hr⟩
+
+/-- **`Update` never evicts** (the eldest are preferred): every peer of the table is still there afterwards, and the only
+peer that can be new is the one `Update` was called with. -/
+theorem C37_update_never_evicts (t t' : Table) (p : Peer) (r : UpdRes) (hinv : Inv t) (h : update t p = .ok (t', r)) :
+    (∀ q ∈ t.peers, q ∈ t'.peers) ∧ (∀ q ∈ t'.peers, q ∈ t.peers ∨ q = p) :=
+  updateF_peers (fuelFor t) t t' p r hinv h
+
+/-- a newcomer whose bucket is full and is not the last one is dropped: `ErrPeerRejectedNoCapacity`, table unchanged -/
+theorem C37_update_full_nonlast_rejected (t : Table) (p : Peer) (bucket : List Peer)
+    (hb : t.buckets[bucketIdx t (cpl p.id t.loc)]? = some bucket) (hh : has bucket p.id = false)
+    (hfull : ¬ bucket.length < t.bucketsize) (hnl : bucketIdx t (cpl p.id t.loc) ≠ t.buckets.length - 1) :
+    update t p = .ok (t, .rejected) :=
+  updateF_full_nonlast (fuelFor t) t p bucket hb hh hfull hnl
+
+/-- a known peer moves to the front of its bucket (most recently seen first); the others keep their order -/
+theorem C37_update_present_moves (t : Table) (p : Peer) (bucket : List Peer)
+    (hb : t.buckets[bucketIdx t (cpl p.id t.loc)]? = some bucket) (hh : has bucket p.id = true) :
+    update t p = .ok ({ t with buckets := t.buckets.set (bucketIdx t (cpl p.id t.loc)) (moveToFront p.id bucket) }, .moved) :=
+  updateF_present (fuelFor t) t p bucket hb hh
+
 /-! ### Non-vacuity: a history that splits twice and rejects once (bucketsize 1, 1-byte ids, local = 0) -/
 example : run (Table.new 1 [0]) [.update ⟨[0x80], "a"⟩, .update ⟨[0x40], "b"⟩, .update ⟨[0x20], "c"⟩, .update ⟨[0xc0], "d"⟩,
     .remove [0x40], .update ⟨[0x80], "e"⟩]
@@ -71,5 +105,12 @@ example : run (Table.new 1 [0]) [.update ⟨[0x80], "a"⟩, .update ⟨[0x40], "
 example : nearestPeers ⟨[0], [[⟨[0x80], "a"⟩], [⟨[0x40], "b"⟩], [⟨[0x20], "c"⟩]], 1⟩ [0x21] 2
     = .ok [⟨[0x20], "c"⟩, ⟨[0x40], "b"⟩] := by rfl
 example : nextBucket 5 ⟨[0], [[⟨[0x80], "a"⟩]], 0⟩ = .error .diverge := by rfl
+example : find ⟨[0], [[⟨[0x80], "a"⟩], [⟨[0x40], "b"⟩], [⟨[0x20], "c"⟩]], 1⟩ [0x40] = .ok (some ⟨[0x40], "b"⟩) := by rfl
+example : OpsIdLen 1 [.update ⟨[0x80], "a"⟩, .remove [0x40, 1]] := by
+  intro op hop p hp
+  simp only [List.mem_cons, List.not_mem_nil, or_false] at hop
+  rcases hop with rfl | rfl
+  · injection hp with hp; subst hp; rfl
+  · cases hp
 
 end OntVerif.Props.C37
